@@ -719,12 +719,12 @@ func coqObs(o *vmlib.Obs, l *layout) string {
 // ---------------------------------------------------------------- main loop
 
 func run(c *Ctx) error {
-	n := c.N(2000, 20000)
+	n := c.N(2000, 12000)
 	cases := corpus()
 	for i := 0; i < n; i++ {
 		cases = append(cases, genCase(c.Rng))
 	}
-	evalEvery := 1
+	evalEvery := 2 // every second case also goes through the Coq model
 	if c.Thorough() {
 		evalEvery = 4 // every fourth case also goes through the Coq model
 	}
